@@ -437,6 +437,8 @@ def r15_observers(ctx, cname, ci, F, ev_index, isF):
                       for (c, br) in g.guard_branches(node))
             good = good and okb
             continue
+        if isinstance(v, ast.BoolOp) and isinstance(v.op, ast.And) and len(v.values) == 2 and is_emptiness_test(prog, cname, F, v.values[0]) == -1:
+            v = v.values[1]                  # `not empty and <membership>`: False when empty, the membership test otherwise
         if isinstance(v, ast.Compare) and len(v.ops) == 1:
             if isinstance(v.ops[0], ast.In) and isF(v.comparators[0]):
                 member_seen = True
